@@ -380,6 +380,22 @@ class C08(Check):
         return failures, broken
 
     # ------------------------------------------------------------------ (d) real simulations
+    @staticmethod
+    def _copy_model(wntr, wn, how):
+        import copy, pickle, tempfile
+        if how == "dict":
+            return wntr.network.from_dict(wntr.network.to_dict(wn))
+        if how == "json":
+            with tempfile.TemporaryDirectory() as d:
+                fn = os.path.join(d, "wn.json")
+                wntr.network.write_json(wn, fn)
+                return wntr.network.read_json(fn)
+        if how == "deepcopy":
+            return copy.deepcopy(wn)
+        if how == "pickle":
+            return pickle.loads(pickle.dumps(wn))
+        raise ValueError(how)
+
     def _sim_case(self, ctx, wntr, spec):
         """spec: dict(mode, hstep, report, duration, leaks={node: (area, cd, start, end)}, pause=None|seconds, remove=[nodes])
         returns list of Failures"""
@@ -420,6 +436,15 @@ class C08(Check):
         for nm, (st, en) in windows.items():
             if st is not None and en is not None and en > st and st % spec["hstep"] != 0 and st // spec["hstep"] == (en - 1) // spec["hstep"]:
                 ctx.count("sim_spec:window_inside_one_step:" + ("tank" if nm == "T" else "junction") + (":reportALL" if spec["report"] == "ALL" else ""))
+        if spec.get("copy"):
+            # the same scenario on a COPY of the model (dictionary / JSON round trip, deepcopy, pickle): the leak and its two
+            # controls must mean the same there
+            try:
+                wn = self._copy_model(wntr, wn, spec["copy"])
+            except Exception as e:
+                ctx.count("copy_error:%s:%s" % (spec["copy"], type(e).__name__))
+                return failures
+            ctx.count("sim_spec:model_copy:" + spec["copy"])
         sim = wntr.sim.WNTRSimulator(wn)
         frames = []
         try:
@@ -731,6 +756,10 @@ class C08(Check):
                         a_, c_, st, en = leaks[nm]
                         leaks[nm] = (a_, c_, st, st)  # empty window: start_time = end_time
             specs.append(spec)
+        hows = ["dict", "json", "deepcopy", "pickle"]
+        for i, spec in enumerate(specs):
+            if i % 2 == 1:
+                spec["copy"] = hows[(i // 2) % 4]
         return specs
 
     # ------------------------------------------------------------------ correspondence + oracle
@@ -746,7 +775,7 @@ class C08(Check):
         failures, broken = [], []
         for fn, c in vlib.corpus_items(self.pid):
             if c.get("kind") == "sim":
-                failures += self._sim_case(ctx, wntr, {k: (tuple(v) if isinstance(v, list) and k != "remove" else v) for k, v in c.items() if k in ("mode", "hstep", "report", "duration", "leaks", "pause", "remove", "isolate", "rerun", "high", "extra")} | {"leaks": {n: tuple(v) for n, v in c["leaks"].items()}})
+                failures += self._sim_case(ctx, wntr, {k: (tuple(v) if isinstance(v, list) and k != "remove" else v) for k, v in c.items() if k in ("mode", "hstep", "report", "duration", "leaks", "pause", "remove", "isolate", "rerun", "high", "extra", "copy")} | {"leaks": {n: tuple(v) for n, v in c["leaks"].items()}})
         f, b = self._leak_rows(ctx, wntr, 12 if ctx.quick else 120)
         failures += f
         broken += b
@@ -760,7 +789,7 @@ class C08(Check):
             fs = self._sim_case(ctx, wntr, spec)
             failures += fs
             if len(ctx.samples) < 4:
-                ctx.sample({k: spec[k] for k in ("mode", "hstep", "report", "duration", "leaks", "isolate", "rerun", "high", "extra") if k in spec} | {"pause": spec.get("pause"), "failures": len(fs)})
+                ctx.sample({k: spec[k] for k in ("mode", "hstep", "report", "duration", "leaks", "isolate", "rerun", "high", "extra", "copy") if k in spec} | {"pause": spec.get("pause"), "failures": len(fs)})
         for spec in self._gen_edit_specs(ctx, 4 if ctx.quick else 80):
             failures += self._edit_case(ctx, wntr, spec)
         failures.sort(key=lambda x: len(json.dumps(x.replay, default=str)))
@@ -794,7 +823,7 @@ class C08(Check):
         rp = r.get("replay", {})
         fs = []
         if rp.get("kind") == "sim":
-            spec = {k: rp[k] for k in ("mode", "hstep", "report", "duration", "pause", "remove", "isolate", "rerun", "high", "extra") if k in rp and rp[k] is not None}
+            spec = {k: rp[k] for k in ("mode", "hstep", "report", "duration", "pause", "remove", "isolate", "rerun", "high", "extra", "copy") if k in rp and rp[k] is not None}
             spec["leaks"] = {n: tuple(v) for n, v in rp["leaks"].items()}
             fs = self._sim_case(ctx, wntr, spec)
         elif rp.get("kind") == "edit":
